@@ -500,6 +500,15 @@ struct Ctx
       if (!parts[i].coords.empty() && parts[i].kind == DOWNHILL && parts[i].full) return true;
     return false;
   }
+  // a downhill simplex (stand-alone, or a 'full' part of the meta-optimiser) working on one or two parameters
+  bool simplexLowDim() const
+  {
+    if (kind == DOWNHILL) return pb.n <= 2;
+    if (kind != META) return false;
+    for (size_t i = 0; i < parts.size(); ++i)
+      if (!parts[i].coords.empty() && parts[i].kind == DOWNHILL && parts[i].full && parts[i].coords.size() <= 2) return true;
+    return false;
+  }
   string consClass() const { return !box.any ? "cons=none" : box.startOnBound ? "cons=start-on-bound" : "cons=some"; }
   string text() const
   {
@@ -732,6 +741,11 @@ double gapBoundMulti(const Ctx& c, const vector<double>& x)
     for (size_t i = 0; i < x.size(); ++i) ax = max(ax, fabs(x[i]));
     double phi = max(1.0, c.pb.lmax) / min(1.0, c.pb.lmin);
     b += KCONV * 0.5 * c.pb.lmax * static_cast<double>(c.pb.n) * (phi * 1e-4 * ax) * (phi * 1e-4 * ax);
+    // The backtracking search accepts a step on sufficient decrease only (f_new <= f_old + 1e-4 lambda slope), so an accepted
+    // step can decrease f by as little as 1e-4 lambda g'Hg; when that is below tol the function-difference rule stops the run:
+    // |g|^2 <= decrease / (1e-4 lambda lmin(H)) and gap <= |g|^2 / (2 lmin(Q)).  (Seen: 1-D, Q ~ 2, first step with H = I lands
+    // on the mirror image of the start.)  lambda lmin(H) >= 1/phi^2 generously; constant 10.
+    b += 10 * 1e4 * c.tol * phi * phi / (2 * c.pb.lmin);
   }
   return b;
 }
@@ -857,7 +871,7 @@ void judgeRun(const Ctx& c, const vector<size_t>& coords, const RunResult& r, co
       vrt::counted("converge.cap-exhausted-unjudged");
       vrt::tally("cap-exhausted:" + base);
     }
-    else if ((c.kind == DOWNHILL || (c.kind == META && c.hasDownhillFull())) && grp != "known" && vrt::known("C10-downhill-stop-rule"))
+    else if (c.simplexLowDim() && grp != "known" && vrt::known("C10-downhill-stop-rule"))
     {
       // known finding: the simplex stop rule (relative spread of the vertex values) does not bound the distance to the minimiser
       vrt::counted("converge.downhill-known-unjudged");
@@ -884,7 +898,9 @@ void judgeRun(const Ctx& c, const vector<size_t>& coords, const RunResult& r, co
         bound = KCONV * c.tol * (1 + fabs(fmin)) + KCONV * floorF(c.pb);
       }
       margin("converge:" + on, fr - fmin, bound);
-      vrt::expect(fr - fmin <= bound, "converge.quadratic", base, [&] {
+      // a downhill simplex over one or two parameters is the class of known finding C10-downhill-stop-rule
+      const string ccls = base + ((c.kind == DOWNHILL || (c.kind == META && c.hasDownhillFull())) ? (c.simplexLowDim() ? ":dim<=2" : ":dim>=3") : "");
+      vrt::expect(fr - fmin <= bound, "converge.quadratic", ccls, [&] {
             return c.text() + " => reported " + vrt::vecStr(r.x) + " f-fmin=" + str(fr - fmin) + " > bound " + str(bound) + " although isToleranceReached() (" + str(r.eTotal) + " evaluations, " + str(r.steps) + " steps)";
           });
     }
@@ -1394,17 +1410,39 @@ void caseBracket(vrt::Case& cs)
 int main(int argc, char** argv)
 {
   vector<vrt::Group> groups = {
-    { "multi", 6000, 240000, caseMulti, 600, false },
-    { "oned", 4000, 160000, caseOneD, 600, false },
-    { "meta", 2000, 80000, caseMeta, 600, false },
-    { "line", 3000, 120000, caseLine, 600, false },
-    { "bracket", 3000, 120000, caseBracket, 600, false },
+    { "multi", 6000, 180000, caseMulti, 600, false },
+    { "oned", 4000, 120000, caseOneD, 600, false },
+    { "meta", 2000, 60000, caseMeta, 600, false },
+    { "line", 3000, 90000, caseLine, 600, false },
+    { "bracket", 3000, 90000, caseBracket, 600, false },
     { "known-meta-downhill-step", 3, 3, caseKnownMetaDownhillStep, 600, false },
     { "known-downhill-stop-rule", 3, 3, caseKnownDownhillStop, 600, false },
   };
   vrt::Meta meta;
-  meta.rule = "TODO";
-  meta.assumptions = {};
-  meta.requiredClauses = { "descent", "consistent.returned", "consistent.getFunctionValue", "budget.counter", "budget.evaluations", "budget.counter-honest", "feasible.evaluations", "feasible.reported", "converge.quadratic", "converge.simplex-stop-rule", "bracket.middle-lowest", "bracket.values" };
+  meta.rule = "Objective = harness test double recording every evaluation: random SPD quadratic c + (x-m)'Q(x-m)/2 (condition <= 1e3, half of them <= 10, smallest eigenvalue in [0.1,10], "
+      "c in [1,10], |m| <= 0.5/5/50) or smooth strictly convex non-quadratic sum a_i phi(w_i.(x-m)) + mu|x-m|^2/2, phi in {log cosh, sqrt(1+t^2)-1, t^2/2+t^4/4, t^2/2+max(t,0)^3}; start = m + r u, "
+      "r log-uniform in [0.05,10], not already optimal; per coordinate no / two-sided / one-sided interval constraint (open or closed ends) containing start and minimiser, sometimes with the start on a closed end; "
+      "policy auto/keep/ignore; tolerance 1e-4..1e-10; evaluation budget 100000 (convergence judged) or 0..400 (budget judged); optimiser object fresh, cloned (original destroyed) or re-used after a warm-up run. "
+      "multi: BFGS, conjugate gradient, Powell, downhill simplex, SimpleMultiDimensions, SimpleNewtonMultiDimensions x dimension 1..6 (index-driven). oned: Brent with outward / inward bracketing, golden section, Newton 1-D on 1-D "
+      "objectives and on 1-D slices of n-D ones; initial interval with the start at an end or inside. meta: MetaOptimizer over 1..3 sub-optimisers (7 kinds, iteration type step/full) on a random partition of the parameters "
+      "(a part may be empty), 1..4 progressive-precision steps. line: NewtonBacktrackOneDimension on a DirectionFunction, lineSearch, lineMinimization along Newton / steepest / random descent directions. "
+      "bracket: bracketMinimum / inwardBracketMinimum on convex slices. A class key = (group, optimiser, policy, objective family, dimension class, constraint class incl. whether a bound was approached, budget class, "
+      "stop by tolerance or by budget, clone/re-use) resp. (line tool, policy, family, direction kind, constraint class, accepted abscissa class) resp. (bracketing routine, family, position of the minimiser); each key is a complete optimisation run.";
+  meta.assumptions = {
+    "descent: f(reported) <= f(start) + 1e-10 (1+|f(start)|), both computed by the pure objective; the start of Brent / golden section is the initial value of the parameter, placed at an end of the initial interval (Brent also inside)",
+    "consistency: optimize() and getFunctionValue() equal the objective at getParameters() within 1e-12 relative",
+    "a run that raises is accepted only under the keep policy with constraints present and a bpp::ConstraintException (tabulated); with no constraint in force (none / ignore) or under auto a run has to report a point",
+    "budget is judged on the optimiser's own evaluation counter (exact: no iteration starts once it exceeds the budget) and, for the recorded evaluations, with a factor 10 + 20(n+1) because the library by convention "
+    "does not count evaluations made inside (nested) init() calls, i.e. the bracketing of nested one-dimensional searches",
+    "convergence is judged on quadratics when the tolerance is reported as reached and the constraints are absent, removed (ignore) or were never approached by any evaluation (within 1e-9 relative of a bound): "
+    "Brent / golden section |x-min| <= 100 (tol max|x| + 1e-10) + resolution floor; Newton 1-D gap <= 100 tol (1+|fmin|); multi-dimensional gap <= 100 n kappa^2 tol (1+|fmin|) (+ for BFGS the two fixed rules of its backtracking line search: 1e-4 relative step size, sufficient decrease 1e-4 lambda slope)",
+    "downhill simplex: its stop rule does not bound the distance to the minimiser; with one or two parameters false stops are frequent (known finding C10-downhill-stop-rule: convergence unjudged there), "
+    "with three or more they need n+1 nearly equal values and the generic bound is applied; always judged: n+1 recorded evaluations and the reported value lie within the relative spread tol of the lowest recorded value",
+    "feasibility under auto: every recorded evaluation point and the reported point satisfy isCorrect() of the constraints handed to init()",
+    "bracketing: after sorting the triple by abscissa the middle point has a value <= both others, and the three values are the objective at the three abscissas",
+    "the objective's own parameters carry no constraint (it records, it does not police); AutoParameter / IntervalConstraint themselves are trusted here (property C01)",
+  };
+  meta.requiredClauses = { "run.returns", "descent", "consistent.returned", "consistent.getFunctionValue", "budget.counter", "budget.evaluations", "budget.counter-honest", "feasible.evaluations", "feasible.reported",
+                           "converge.quadratic", "converge.simplex-stop-rule", "converge.sufficient-decrease", "converge.line-minimum", "bracket.middle-lowest", "bracket.values" };
   return vrt::run(argc, argv, "C10", groups, meta);
 }
